@@ -6,11 +6,18 @@ scripts drawn from a catalogue of compatible edits (add public object, add optio
 parameter, change private object, add base, reorder, add module) and incompatible edits (remove
 object, change kind, remove base class, change attribute value) applied at random public and
 private locations, plus dangling / cyclic re-exports.
+The package may have sibling top-level packages (a private one, ``_pk``, and a public one, ``pkb``)
+holding base classes of its classes and objects it re-exports (explicitly or by wildcard); both
+versions are loaded by one *session*: the way ``griffe check`` loads (which pulls in ``_pk`` only
+afterwards, while resolving aliases) or step by step over several packages, with consumer reads of
+the tree between the steps - results derived from the tree before a later package entered the
+collection must not survive it.
 Oracle: a *public-surface model* computed from the generator's structure (never from
-``is_public``) gives the public paths of every object; incompatible edits on an object with >= 1
-public path must yield a breakage of the expected kind on one of its paths, everything else must
-be silent.  CLI leg: ``python -m griffe check`` in a scratch git repository; exit code must be 1
-exactly when the in-process diff reports something.
+``is_public``) and the packages the session loads gives the public paths of every object;
+incompatible edits on an object with >= 1 public path must yield a breakage of the expected kind on
+one of its paths, everything else must be silent.  CLI leg: ``python -m griffe check`` in a scratch
+git repository; exit code must be 1 exactly when the reference model / the in-process diff has
+something to report.
 """
 from __future__ import annotations
 
@@ -27,25 +34,44 @@ LEVEL = "exploration"
 ANCHORS = ["diff.py"]
 RULE = ("structured package pk (modules pk, pk.core, pk._impl, pk.sub, pk.sub.mod; functions, classes with methods/"
         "attributes and public or private bases, attributes; __all__ present or absent per module; re-exports of public "
-        "and private-module objects, listed in __all__ or not) x edit script of 1-4 edits from the catalogue "
-        "{add public object, add optional keyword parameter, change private object, add base, reorder, add module | remove "
-        "object, change kind, remove base, change attribute value} at random public/private locations; optional dangling or "
-        "cyclic re-export injected in both versions. distinct = digest of (old files, new files); non-trivial = script has "
-        "an incompatible edit on an object whose only public path goes through a re-export or inheritance")
-LEVEL_TEXT = ("Both versions are loaded statically with aliases resolved (as `griffe check` does) and diffed by the real "
-              "find_breaking_changes; the generator's public-surface model decides, per edit, whether a breakage of a given "
-              "kind must appear on one of the object's paths, and that nothing else may be reported; identical copies and "
-              "compatible-only scripts must be silent; every breakage must explain() in all styles; the CLI exit code is "
-              "compared with the in-process result on a sample.")
+        "and private-module objects, listed in __all__ or not), optionally with sibling top-level packages next to it - a private "
+        "one (_pk, _pk.base) and a public one (pkb, pkb.mod) - that hold base classes of pk classes (imported directly, through a "
+        "re-exporting __init__ hop, under an alias, or known through `from _pk import *` only; own members may override inherited "
+        "ones) and objects pk re-exports (explicitly or by wildcard, listed in __all__ or not) x edit script of 1-4 edits from the "
+        "catalogue {add public object, add optional keyword parameter, change private object, add base, reorder, add module | remove "
+        "object, change kind, remove base, change attribute value} at random public/private locations in any of the packages; optional "
+        "dangling or cyclic re-export injected in both versions x loading session applied to both versions: the way `griffe check` "
+        "loads (load pk, resolve aliases with external=None, which pulls in _pk afterwards when an exported alias or a wildcard leads "
+        "there) or a loader session over a drawn subset/order of the packages with consumer reads of the whole tree and alias "
+        "resolution between the steps. distinct = digest of (old files, new files, session); non-trivial = script has an incompatible "
+        "edit on an object whose only public path goes through a re-export or inheritance")
+LEVEL_TEXT = ("Both versions are loaded statically by the same session (as `griffe check` does, or step by step over several packages) "
+              "and diffed by the real find_breaking_changes; the generator's public-surface model - evaluated over the packages the "
+              "session's loading rules put into the collection, which is itself compared with the collection observed - decides, per "
+              "edit, whether a breakage of a given kind must appear on one of the object's paths, and that nothing else may be reported "
+              "(a difference only Python sees, inside a package the session did not load, is neither demanded nor forbidden); identical "
+              "copies and compatible-only scripts must be silent; every breakage must explain() in all styles; the CLI exit code is "
+              "compared with the reference model and with the in-process result on a sample, two thirds of it with a private sibling "
+              "package that the CLI has to pull in by itself.")
 LEVEL_NOTE = ("trusted: the public-surface model (written from the documented rules: underscore names, __all__, imported "
-              "names are private unless exported, modules only by underscore); a breakage located at the canonical "
+              "names are private unless exported, modules only by underscore; only paths below pk are public paths of the compared "
+              "package) and the loading rule (external=None loads `_pk` for pk, nothing else); a breakage located at the canonical "
               "definition path of an object that has a public path is accepted as 'on that object'")
-TECHNIQUE = "runtime monitoring: reference-model monitor (public-surface model) over generated two-version histories + CLI exit-code oracle"
+TECHNIQUE = "runtime monitoring: reference-model monitor (public-surface model) over generated two-version histories x loading sessions + CLI exit-code oracle"
 REQUIRED_COUNTERS = ["pairs_diffed", "identical_pairs_silent", "compatible_scripts_silent", "incompatible_public_edits_reported",
                      "incompatible_private_edits_silent", "breakages_explained", "cli_exit_codes_compared",
-                     "edits_behind_reexport_or_inheritance"]
+                     "edits_behind_reexport_or_inheritance", "private_sibling_entered_collection_after_package",
+                     "inherited_from_late_loaded_package_edits_reported", "sibling_package_reexport_edits_reported",
+                     "edits_behind_wildcard_import_from_sibling_reported", "cli_cases_with_sibling_package",
+                     "tree_reads_between_loading_steps"]
 EXHAUSTIVE = {"quick": False, "thorough": False}
-ASSUMPTIONS = ["attribute values and parameter lists are simple literals so that C03/C10 findings cannot surface here"]
+ASSUMPTIONS = ["attribute values and parameter lists are simple literals so that C03/C10 findings cannot surface here",
+               "a module with a wildcard import declares a non-empty __all__ (whether names only a wildcard brings in are public without "
+               "__all__ is not settled by the documented rules); wildcard imports come from a sibling package's __init__ only and are the "
+               "first statement of the module (expansion order is C05's subject)",
+               "pairs in which the edit changes which packages the session loads (the last exported name leading into _pk is removed) "
+               "are not judged",
+               "no package is loaded twice in a session (reloading is C18's subject)"]
 SHARD_TIMEOUT = {"quick": 900, "thorough": 7200}
 
 
@@ -56,7 +82,13 @@ def new_obj(name, kind, **kw):  # noqa: ANN001, ANN003, ANN201
     return o
 
 
-def gen_model(rng: random.Random) -> dict:
+def top_of(mod: str) -> str:
+    return mod.split(".", 1)[0]
+
+
+def gen_model(rng: random.Random, siblings: bool | None = None) -> dict:  # noqa: C901, PLR0912, PLR0915
+    """``siblings``: None = drawn, True = the private sibling top-level package is present and linked by an exported
+    re-export, False = single-package model."""
     mods: dict[str, dict] = {}
     counter = [0]
 
@@ -107,10 +139,7 @@ def gen_model(rng: random.Random) -> dict:
         # private-module objects (some with private names) re-exported, possibly under a public name
         init_imports.append(("pk._impl", o["name"], rng.choice([None, o["name"] + "_re", o["name"].lstrip("_") + "_pub"])))
     init_objs = gen_objs(rng.randint(0, 2), 0.2)
-    init_all = None
-    if rng.random() < 0.7:
-        init_all = [(a or n) for (_m, n, a) in init_imports if rng.random() < 0.7] + [o["name"] for o in init_objs if rng.random() < 0.8]
-    mods["pk"] = {"objs": init_objs, "imports": init_imports, "all": init_all}
+    mods["pk"] = {"objs": init_objs, "imports": init_imports, "all": None}
     mods["pk.sub"] = {"objs": gen_objs(rng.randint(0, 2), 0.2), "imports": [], "all": None}
     # pk.sub.mod: a class inheriting from a core class through an import
     core_classes = [o for o in core if o["kind"] == "class"]
@@ -118,6 +147,86 @@ def gen_model(rng: random.Random) -> dict:
     submod_objs = gen_objs(rng.randint(1, 2), 0.2)
     submod_objs.append(gen_class(fresh("D"), [target["name"]]))
     mods["pk.sub.mod"] = {"objs": submod_objs, "imports": [("pk.core", target["name"], None)], "all": None}
+
+    # sibling top-level packages: a private one (_pk next to pk: the ast/_ast, griffe/_griffe layout; the only kind of
+    # package `griffe check` loads on its own, and only afterwards, while resolving an exported alias into it) and a
+    # public one (pkb: never loaded implicitly). They hold base classes of pk classes and objects pk re-exports.
+    sibling_names: list[tuple[str, str]] = []  # (name, sibling package) of what pk/__init__ imports explicitly from a sibling package
+    wild_listed: list[str] = []  # names a wildcard import brings into pk/__init__ that its __all__ is going to list
+
+    def add_sibling(topname: str, submod: str, cprefix: str) -> None:
+        sbase = gen_class(fresh(rng.choice([cprefix, cprefix, "_" + cprefix])), [])
+        sub_objs = gen_objs(rng.randint(1, 3), 0.2) + [sbase]
+        if rng.random() < 0.4:
+            sub_objs.append(gen_class(fresh(cprefix + "Mid"), [sbase["name"]]))
+        mods[f"{topname}.{submod}"] = {"objs": sub_objs, "imports": [], "all": None}
+        top_objs = gen_objs(rng.randint(1, 2), 0.2)
+        top_imports = []
+        hop = rng.random() < 0.5  # the package's __init__ re-exports the classes of its submodule: importable through that hop
+        if hop:
+            top_imports = [(f"{topname}.{submod}", o["name"], None) for o in sub_objs if o["kind"] == "class"]
+        top_all = None
+        if rng.random() < 0.4:
+            top_all = [o["name"] for o in top_objs if rng.random() < 0.8] + [i[1] for i in top_imports if rng.random() < 0.8]
+        mods[topname] = {"objs": top_objs, "imports": top_imports, "all": top_all}
+        # `from <sibling> import *` as the first line of pk/__init__ (at most one wildcard import there)
+        wild_names: list[str] = []
+        if rng.random() < 0.35 and not mods["pk"].get("wild"):
+            mods["pk"]["wild"] = [topname]
+            wild_names = [i[1] for i in imports_of({"mods": mods}, "pk")[len(init_imports):]]
+            wild_listed.extend(n for n in wild_names if rng.random() < 0.5)
+        # 1-2 classes of pk inherit from a class of the sibling package (imported directly or through the hop)
+        sclasses = [o for o in sub_objs if o["kind"] == "class"]
+        for _ in range(rng.randint(1, 2)):
+            sc = rng.choice(sclasses)
+            host = rng.choice(["pk", "pk", "pk.core", "pk.sub.mod"])
+            frm = topname if hop and rng.random() < 0.5 else f"{topname}.{submod}"
+            asname = rng.choice([None, None, sc["name"].lstrip("_") + "_b"])
+            local = asname or sc["name"]
+            hm = mods[host]
+            if host == "pk" and sc["name"] in wild_names and rng.random() < 0.5:
+                local = sc["name"]  # the base class is known in pk/__init__ through the wildcard import only
+            elif not any((i[2] or i[1]) == local for i in hm["imports"]):
+                hm["imports"].append((frm, sc["name"], asname))
+                if host == "pk":
+                    sibling_names.append((local, topname))
+            bases = [local]
+            if host == "pk.core" and rng.random() < 0.3:
+                bases.append(base["name"])  # multiple inheritance: a base of the package itself next to the sibling one
+            kid = gen_class(fresh("K"), bases)
+            if rng.random() < 0.3 and sc["members"]:
+                over = copy.deepcopy(rng.choice(sc["members"]))  # overrides an inherited member: the base's one is shadowed
+                kid["members"].append(over)
+            hm["objs"].append(kid)
+            if hm["all"] is not None and host != "pk" and rng.random() < 0.85:
+                hm["all"].append(kid["name"])
+        # 1-2 objects of the sibling package re-exported by pk/__init__
+        pool = [(topname, o) for o in top_objs] + [(f"{topname}.{submod}", o) for o in sub_objs]
+        for smod, o in rng.sample(pool, rng.randint(1, min(2, len(pool)))):
+            asname = rng.choice([None, None, o["name"].lstrip("_") + "_sx"])
+            if not any((i[2] or i[1]) == (asname or o["name"]) for i in init_imports):
+                init_imports.append((smod, o["name"], asname))
+                sibling_names.append((asname or o["name"], topname))
+
+    with_private = rng.random() < 0.65 if siblings is None else siblings
+    with_public = rng.random() < 0.35 if siblings is None else (siblings and rng.random() < 0.35)
+    if with_private:
+        add_sibling("_pk", "base", "SBase")
+    if with_public:
+        add_sibling("pkb", "mod", "PB")
+
+    init_all = None
+    if rng.random() < 0.7 or siblings or mods["pk"].get("wild"):
+        init_all = [(a or n) for (_m, n, a) in init_imports if rng.random() < 0.7] + [o["name"] for o in init_objs if rng.random() < 0.8]
+        init_all += [n for n in wild_listed if n not in init_all]
+        link = [n for n, t in sibling_names if t == "_pk"]
+        if link and not any(n in init_all for n in link) and (siblings or rng.random() < 0.85):
+            init_all.append(rng.choice(link))
+        if mods["pk"].get("wild") and not init_all:
+            # whether names that only a wildcard import brings in are public without __all__ is not settled by the documented
+            # rules: a module with a wildcard import always declares a non-empty __all__ here
+            init_all.append("_impl")
+    mods["pk"]["all"] = init_all
     # underscore-named modules that are public all the same: listed in the parent's __all__, or special (__main__)
     if mods["pk"]["all"] is not None and rng.random() < 0.35:
         mods["pk"]["all"].append("_impl")
@@ -146,9 +255,9 @@ def render_obj(o: dict, indent: str = "") -> str:
 
 def render(model: dict) -> dict[str, str]:
     files = {}
-    pkgs = {"pk", "pk.sub"} | {m for m in model["mods"] if any(x.startswith(m + ".") for x in model["mods"])}
+    pkgs = {"pk", "pk.sub"} | {top_of(m) for m in model["mods"]} | {m for m in model["mods"] if any(x.startswith(m + ".") for x in model["mods"])}
     for mod, m in model["mods"].items():
-        src = ""
+        src = "".join(f"from {w} import *\n" for w in m.get("wild", []))
         for frm, name, asname in m["imports"]:
             src += f"from {frm} import {name}" + (f" as {asname}" if asname else "") + "\n"
         if mod == "pk" and model.get("extra") == "dangling":
@@ -171,8 +280,11 @@ def module_public(model: dict, mod: str) -> bool:
     """Every component below the top-level package must be public by the documented rules: a module without leading
     underscore is public whatever ``__all__`` says; an underscore-named one is public when its parent's (non-empty)
     ``__all__`` lists it, private when that ``__all__`` omits it, and - without ``__all__`` - public only when its
-    name is special (``__main__``)."""
+    name is special (``__main__``). Only ``pk`` is the compared package: modules of sibling top-level packages have
+    no public path of their own (their objects can only be public through pk: re-exported or inherited)."""
     parts = mod.split(".")
+    if parts[0] != "pk":
+        return False
     for i in range(1, len(parts)):
         name = parts[i]
         if not name.startswith("_"):
@@ -198,23 +310,78 @@ def find_obj(model: dict, mod: str, name: str) -> dict | None:
     return next((o for o in model["mods"][mod]["objs"] if o["name"] == name), None)
 
 
-def class_lookup(model: dict, mod: str, cname: str) -> tuple[str, dict] | None:
-    """Resolve a base-class name used in module ``mod`` to (defining module, class object)."""
-    o = find_obj(model, mod, cname)
-    if o and o["kind"] == "class":
-        return mod, o
-    for frm, name, asname in model["mods"][mod]["imports"]:
-        if (asname or name) == cname:
-            t = find_obj(model, frm, name)
-            if t and t["kind"] == "class":
-                return frm, t
+def imports_of(model: dict, mod: str, loaded: set[str] | None = None) -> list[tuple]:
+    """The explicit ``from .. import`` statements of ``mod`` followed by the names its wildcard import (rendered as the first
+    line of the module, so that explicit imports of the same name win) brings in: what the wildcard-imported module lists in
+    ``__all__`` when it declares one, else its names without leading underscore (defined or imported there). A wildcard from
+    a package that is not loaded brings in nothing that is known."""
+    m = model["mods"][mod]
+    out = [tuple(i) for i in m["imports"]]
+    for w in m.get("wild", []):
+        wm = model["mods"].get(w)
+        if wm is None or (loaded is not None and top_of(w) not in loaded):
+            continue
+        names = [o["name"] for o in wm["objs"]] + [i[2] or i[1] for i in wm["imports"]]
+        if wm["all"] is not None:
+            names = [n for n in names if n in wm["all"]]
+        else:
+            names = [n for n in names if not n.startswith("_")]
+        taken = {i[2] or i[1] for i in out}
+        out += [(w, n, None) for n in names if n not in taken]
+    return out
+
+
+def wildcard_only_paths(model: dict, loaded: set[str] | None = None) -> list[str]:
+    """Paths of names a module has through its wildcard import only, and of its classes that name such a base class."""
+    out = []
+    for mod, m in model["mods"].items():
+        if m.get("wild"):
+            wnames = {i[1] for i in imports_of(model, mod, loaded)[len(m["imports"]):]}
+            out += [f"{mod}.{n}" for n in sorted(wnames)]
+            out += [f"{mod}.{o['name']}" for o in m["objs"] if o["kind"] == "class" and any(b in wnames for b in o["bases"])]
+    return out
+
+
+def tops_of(model: dict) -> list[str]:
+    return sorted({top_of(m) for m in model["mods"]})
+
+
+def resolve_name(model: dict, mod: str, name: str, loaded: set[str] | None = None) -> tuple[str, dict | str] | None:
+    """Follow ``name`` of module ``mod`` through the chain of ``from .. import`` statements to its definition:
+    (defining module, object) - or ("?", dotted target) when the chain leaves the loaded top-level packages
+    (nothing is known about the target then) - or None (dangling / cyclic)."""
+    seen = set()
+    while (mod, name) not in seen:
+        seen.add((mod, name))
+        if loaded is not None and top_of(mod) not in loaded:
+            return "?", f"{mod}.{name}"
+        m = model["mods"].get(mod)
+        if m is None:
+            return None
+        o = find_obj(model, mod, name)
+        if o:
+            return mod, o
+        imp = next((i for i in imports_of(model, mod, loaded) if (i[2] or i[1]) == name), None)
+        if imp is None:
+            return None
+        mod, name = imp[0], imp[1]
     return None
 
 
-def public_paths(model: dict) -> dict[str, set[str]]:
-    """canonical path of every object (incl. class members) -> set of *public* paths it is reachable by."""
+def class_lookup(model: dict, mod: str, cname: str, loaded: set[str] | None = None) -> tuple[str, dict] | None:
+    """Resolve a base-class name used in module ``mod`` to (defining module, class object)."""
+    r = resolve_name(model, mod, cname, loaded)
+    if r and r[0] != "?" and r[1]["kind"] == "class":
+        return r  # type: ignore[return-value]
+    return None
+
+
+def public_paths(model: dict, loaded: set[str] | None = None, unknown: dict | None = None) -> dict[str, set[str]]:
+    """canonical path of every object (incl. class members) -> set of *public* paths it is reachable by, given the
+    top-level packages that are in the collection (None: all of them - what Python itself sees). Public names of pk
+    that lead into a package that is not loaded are collected in ``unknown`` (public path -> dotted target)."""
     out: dict[str, set[str]] = {}
-    mods = model["mods"]
+    mods = {mod: m for mod, m in model["mods"].items() if loaded is None or top_of(mod) in loaded}
     # module-level objects through their definition and through re-exports
     top_paths: dict[tuple[str, str], set[str]] = {}
     for mod, m in mods.items():
@@ -223,9 +390,17 @@ def public_paths(model: dict) -> dict[str, set[str]]:
             if module_public(model, mod) and name_public(m, o["name"], imported=False):
                 s.add(f"{mod}.{o['name']}")
     for mod, m in mods.items():
-        for frm, name, asname in m["imports"]:
-            if (frm, name) in top_paths and module_public(model, mod) and name_public(m, asname or name, imported=True):
-                top_paths[(frm, name)].add(f"{mod}.{asname or name}")
+        for _frm, name, asname in imports_of(model, mod, loaded):
+            if not (module_public(model, mod) and name_public(m, asname or name, imported=True)):
+                continue
+            r = resolve_name(model, mod, asname or name, loaded)
+            if r is None:
+                continue
+            if r[0] == "?":
+                if unknown is not None:
+                    unknown[f"{mod}.{asname or name}"] = r[1]
+                continue
+            top_paths[(r[0], r[1]["name"])].add(f"{mod}.{asname or name}")
     for (mod, name), paths in top_paths.items():
         out[f"{mod}.{name}"] = set(paths)
     # class members, own and inherited
@@ -251,10 +426,96 @@ def public_paths(model: dict) -> dict[str, set[str]]:
                     if not mem["name"].startswith("_"):
                         out[canon] |= {f"{p}.{mem['name']}" for p in cpaths}
                 for b in cls["bases"]:
-                    r = class_lookup(model, cmod, b)
+                    r = class_lookup(model, cmod, b, loaded)
                     if r:
                         chain.append(r)
     return out
+
+
+# -- loading sessions ----------------------------------------------------------------------------
+def links_private_sibling(model: dict) -> bool:
+    """`resolve_aliases(external=None)` loads the private sibling package `_pk` exactly when a module of pk lists in its
+    (non-empty) ``__all__`` a name imported from `_pk` (an exported alias that cannot be resolved without it) or
+    wildcard-imports a module of `_pk`."""
+    if "_pk" not in model["mods"]:
+        return False
+    for mod, m in model["mods"].items():
+        if top_of(mod) != "pk":
+            continue
+        if any(top_of(w) == "_pk" for w in m.get("wild", [])):
+            return True  # wildcards are expanded first, loading the private sibling package whatever __all__ says
+        if m["all"]:
+            for frm, name, asname in m["imports"]:
+                if top_of(frm) == "_pk" and (asname or name) in m["all"]:
+                    return True
+    return False
+
+
+def loaded_after(model: dict, ops: list[str]) -> list[str]:
+    """Top-level packages in the collection after the session, in the order they enter it."""
+    loaded: list[str] = []
+    for op in ops:
+        if op.startswith("load:"):
+            if op[5:] not in loaded:
+                loaded.append(op[5:])
+        elif op == "resolve" and "pk" in loaded and "_pk" not in loaded and links_private_sibling(model):
+            loaded.append("_pk")
+    return loaded
+
+
+CLI_SESSION = {"mode": "cli", "ops": ["load:pk", "resolve"]}
+
+
+def gen_session(rng: random.Random, model: dict) -> dict:
+    """How both versions are loaded: the way `griffe check` does it (load pk, then resolve aliases, which may pull in the
+    private sibling package afterwards), or a loader session over several packages in a drawn order, with consumer reads of
+    the whole tree (`touch`) and alias resolution between the steps. No package is loaded twice."""
+    others = [t for t in tops_of(model) if t != "pk"]
+    if rng.random() < 0.45:
+        return copy.deepcopy(CLI_SESSION)
+    order = ["pk"] + [t for t in others if rng.random() < 0.6]
+    rng.shuffle(order)
+    ops: list[str] = []
+    for t in order:
+        if t in loaded_after(model, ops):
+            continue  # already pulled in by an earlier resolve step
+        ops.append("load:" + t)
+        if rng.random() < 0.5:
+            ops.append("touch")
+        if rng.random() < 0.3:
+            ops.append("resolve")
+            if rng.random() < 0.5:
+                ops.append("touch")
+    if ops[-1] != "resolve":
+        ops.append("resolve")
+    if rng.random() < 0.3:
+        ops.append("touch")
+    return {"mode": "session", "ops": ops}
+
+
+def touch(collection) -> int:  # noqa: ANN001
+    """A consumer reading the tree between loading steps (what extension hooks and renderers do): every read below is part
+    of the consumer API and must not influence what a later step or the comparison sees."""
+    import griffe
+
+    n = 0
+    stack = list(collection.members.values())
+    while stack:
+        o = stack.pop()
+        n += 1
+        if o.is_alias:
+            try:
+                _ = o.target.kind
+            except (griffe.AliasResolutionError, griffe.CyclicAliasError):
+                pass
+            continue
+        _ = (o.is_public, o.is_private, o.is_special, o.path, o.canonical_path)
+        if o.is_class:
+            _ = (o.resolved_bases, o.mro(), o.parameters)
+        if o.is_class or o.is_module:
+            _ = (list(o.all_members), list(o.inherited_members), o.exports if o.is_module else None)
+            stack.extend(o.members.values())
+    return n
 
 
 # -- edits ---------------------------------------------------------------------------------------
@@ -271,9 +532,18 @@ def all_objects(model: dict):  # noqa: ANN201
                     yield mod, o, mem
 
 
-def prefer_hidden(rng: random.Random, cands: list, surface: dict):  # noqa: ANN201
+def prefer_hidden(rng: random.Random, cands: list, surface: dict, focus: bool = False):  # noqa: ANN201
     """Bias incompatible edits towards objects that are public *only* through a re-export or inheritance
-    (their canonical path is not among their public paths) and towards members of such objects."""
+    (their canonical path is not among their public paths) and towards members of such objects. ``focus``: when there
+    are candidates that live in a sibling top-level package and are public through pk, take one of those."""
+    if focus:
+        sib = [c for c in cands if top_of(c[0]) != "pk" and surface.get(canon(*c))]
+        members = [c for c in sib if c[1] is not None]  # members of sibling classes: public through re-exported or inheriting pk classes
+        if members and rng.random() < 0.6:
+            return rng.choice(members)
+        if sib:
+            return rng.choice(sib)
+
     def hidden(c):  # noqa: ANN001, ANN202
         m, cls, o = c
         top = canon(m, None, cls) if cls else canon(m, cls, o)
@@ -285,7 +555,7 @@ def prefer_hidden(rng: random.Random, cands: list, surface: dict):  # noqa: ANN2
     return rng.choice(cands)
 
 
-def apply_edit(rng: random.Random, old: dict, new: dict, kind: str, surface: dict) -> dict | None:  # noqa: C901, PLR0911, PLR0912
+def apply_edit(rng: random.Random, old: dict, new: dict, kind: str, surface: dict, focus: bool = False) -> dict | None:  # noqa: C901, PLR0911, PLR0912
     """Mutates ``new``; returns an expectation record or None when not applicable."""
     objs = list(all_objects(new))
     if kind == "add_object":
@@ -341,28 +611,15 @@ def apply_edit(rng: random.Random, old: dict, new: dict, kind: str, surface: dic
         return {"edit": kind, "where": "pk.extraN", "expect": None}
     # incompatible ---------------------------------------------------------------------------
     if kind == "remove":
-        m, c, o = prefer_hidden(rng, objs, surface)
+        m, c, o = prefer_hidden(rng, objs, surface, focus)
         path = canon(m, c, o)
         if c:
             c["members"].remove(o)
         else:
             new["mods"][m]["objs"].remove(o)
-            # drop re-exports, __all__ entries and base-class uses so the new version stays importable
-            for mod2, mm in new["mods"].items():
-                for imp in list(mm["imports"]):
-                    if imp[0] == m and imp[1] == o["name"]:
-                        mm["imports"].remove(imp)
-                        if mm["all"] is not None and (imp[2] or imp[1]) in mm["all"]:
-                            mm["all"].remove(imp[2] or imp[1])
-                        for oo in mm["objs"]:
-                            if oo["kind"] == "class" and (imp[2] or imp[1]) in oo["bases"]:
-                                oo["bases"].remove(imp[2] or imp[1])
-            mm = new["mods"][m]
-            if mm["all"] is not None and o["name"] in mm["all"]:
-                mm["all"].remove(o["name"])
-            for oo in mm["objs"]:
-                if oo["kind"] == "class" and o["name"] in oo["bases"]:
-                    oo["bases"].remove(o["name"])
+            # drop re-exports (transitively: a re-export may itself be imported elsewhere), __all__ entries and base-class
+            # uses so the new version stays importable
+            drop_name(new, m, o["name"])
         return {"edit": kind, "where": path, "expect": "Public object was removed"}
     if kind == "change_kind":
         cands = [(m, c, o) for m, c, o in objs if not (o["kind"] == "class" and any(o["name"] in x["bases"] for _m, _c, x in objs if x["kind"] == "class"))]
@@ -378,7 +635,7 @@ def apply_edit(rng: random.Random, old: dict, new: dict, kind: str, surface: dic
         cands = [(m, c, o) for m, c, o in cands if not (c is None and (m, o["name"]) in used_as_base)]
         if not cands:
             return None
-        m, c, o = prefer_hidden(rng, cands, surface)
+        m, c, o = prefer_hidden(rng, cands, surface, focus)
         path = canon(m, c, o)
         newkind = rng.choice([k for k in ("func", "attr", "class") if k != o["kind"]])
         o["kind"] = newkind
@@ -398,10 +655,28 @@ def apply_edit(rng: random.Random, old: dict, new: dict, kind: str, surface: dic
         cands = [(m, c, o) for m, c, o in objs if o["kind"] == "attr"]
         if not cands:
             return None
-        m, c, o = prefer_hidden(rng, cands, surface)
+        m, c, o = prefer_hidden(rng, cands, surface, focus)
         o["value"] = str(int(o["value"]) + 10)
         return {"edit": kind, "where": canon(m, c, o), "expect": "Attribute value was changed"}
     return None
+
+
+def drop_name(model: dict, mod: str, name: str) -> None:
+    """``name`` no longer exists in ``mod``: remove its ``__all__`` entry, its uses as a base class there, and every import
+    of it in other modules (recursively, with what those modules exposed under the imported name)."""
+    mm = model["mods"][mod]
+    if mm["all"] is not None and name in mm["all"]:
+        mm["all"].remove(name)
+    for oo in mm["objs"]:
+        if oo["kind"] == "class" and name in oo["bases"]:
+            oo["bases"].remove(name)
+    for mod2, m2 in model["mods"].items():
+        for imp in list(m2["imports"]):
+            if imp[0] == mod and imp[1] == name and imp in m2["imports"]:
+                m2["imports"].remove(imp)
+                drop_name(model, mod2, imp[2] or imp[1])
+        if mod in m2.get("wild", []) and not any((i[2] or i[1]) == name for i in m2["imports"]) and not find_obj(model, mod2, name):
+            drop_name(model, mod2, name)  # the wildcard import no longer brings the name in
 
 
 def canon(mod: str, cls: dict | None, o: dict) -> str:
@@ -429,32 +704,52 @@ def fix_class_order(model: dict) -> None:
 
 
 # -- judge ---------------------------------------------------------------------------------------
-def load_pkg(root):  # noqa: ANN001, ANN201
+def load_pkg(root, session: dict | None = None):  # noqa: ANN001, ANN201
+    """Returns (pk, number of objects read by touch steps)."""
     import griffe
 
+    if session is not None and session["mode"] == "cli":
+        # exactly what `griffe check` does for each version
+        return griffe.load("pk", search_paths=[root], try_relative_path=False, allow_inspection=False,
+                           resolve_aliases=True, resolve_external=None), 0
     loader = griffe.GriffeLoader(search_paths=[root], allow_inspection=False)
-    pkg = loader.load("pk")
-    loader.resolve_aliases(implicit=False, external=None)
-    return pkg
+    touched = 0
+    for op in (session["ops"] if session else ["load:pk", "resolve"]):
+        if op.startswith("load:"):
+            loader.load(op[5:], try_relative_path=False)
+        elif op == "touch":
+            touched += touch(loader.modules_collection)
+        elif op == "resolve":
+            loader.resolve_aliases(implicit=False, external=None)
+        else:
+            raise ValueError(op)
+    return loader.modules_collection["pk"], touched
 
 
-def diff_in_process(old_files: dict, new_files: dict):  # noqa: ANN201
+def diff_in_process(old_files: dict, new_files: dict, session: dict | None = None):  # noqa: ANN201
     import griffe
 
     with tmp_tree(old_files) as r1, tmp_tree(new_files) as r2:
-        old, new = load_pkg(r1), load_pkg(r2)
+        (old, t1), (new, t2) = load_pkg(r1, session), load_pkg(r2, session)
+        info = {"old_tops": list(old.modules_collection.members), "new_tops": list(new.modules_collection.members), "touched": t1 + t2}
         breakages = list(griffe.find_breaking_changes(old, new))
         rows = []
         for b in breakages:
             texts = [b.explain(style) for style in griffe.ExplanationStyle]
             assert all(isinstance(t, str) and t for t in texts)
-            rows.append({"kind": b.kind.value, "path": b.obj.path, "canonical": b.obj.canonical_path if hasattr(b.obj, "canonical_path") else b.obj.path})
-        return rows
+            try:
+                canonical = b.obj.canonical_path
+            except (griffe.AliasResolutionError, griffe.CyclicAliasError):
+                canonical = getattr(b.obj, "target_path", b.obj.path)  # an exported name whose target is not loaded
+            rows.append({"kind": b.kind.value, "path": b.obj.path, "canonical": canonical})
+        return rows, info
 
 
-def surface(model: dict) -> dict[str, dict]:
-    """public path -> descriptor of the object reachable there (definition, re-export and inherited paths alike)."""
-    paths = public_paths(model)
+def surface(model: dict, loaded: list[str] | set[str] | None = None) -> dict[str, dict]:
+    """public path -> descriptor of the object reachable there (definition, re-export and inherited paths alike), given
+    the loaded top-level packages (None: all). A public name leading into a package that is not loaded has kind '?'."""
+    unknown: dict[str, str] = {}
+    paths = public_paths(model, None if loaded is None else set(loaded), unknown)
     desc: dict[str, dict] = {}
     for mod, cls, o in all_objects(model):
         c = canon(mod, cls, o)
@@ -464,6 +759,8 @@ def surface(model: dict) -> dict[str, dict]:
     for c, ps in paths.items():
         for p in ps:
             out[p] = desc[c]
+    for p, target in unknown.items():
+        out[p] = {"canonical": target, "kind": "?", "value": None, "bases": None}
     return out
 
 
@@ -480,6 +777,8 @@ def expected_differences(old_surface: dict, new_surface: dict) -> list[dict]:
             if parent in old_surface and (parent not in new_surface or new_surface[parent]["kind"] != old_surface[parent]["kind"]):
                 continue  # reported once, on the removed / re-kinded parent
             diffs.append({"path": p, "canonical": od["canonical"], "kind": "Public object was removed"})
+        elif "?" in (od["kind"], nd["kind"]):
+            continue  # the target is in a package that is not loaded: only the removal of the name itself can be seen
         elif nd["kind"] != od["kind"]:
             diffs.append({"path": p, "canonical": od["canonical"], "kind": "Public object points to a different kind of object"})
         elif od["kind"] == "attr" and od["value"] != nd["value"]:
@@ -489,12 +788,38 @@ def expected_differences(old_surface: dict, new_surface: dict) -> list[dict]:
     return diffs
 
 
-def judge(rec, case: dict, expectations: list[dict], old_surface: dict, new_surface: dict, rows: list[dict]) -> tuple | None:  # noqa: ANN001
+def reference_diffs(case: dict) -> tuple[list[dict], list[dict]]:
+    """(demanded, allowed). Demanded: differences between the public surfaces as far as the loaded packages show them.
+    Allowed: those plus the differences Python itself sees with every sibling package present (a report about an object
+    that lives in a package the session did not load is neither demanded nor forbidden)."""
+    demanded = expected_differences(case["old_surface"], case["new_surface"])
+    allowed = list(demanded)
+    if case.get("old_full") is not None:
+        allowed += expected_differences(case["old_full"], case["new_full"])
+    return demanded, allowed
+
+
+def judge(rec, case: dict, rows: list[dict], info: dict) -> tuple | None:  # noqa: ANN001, C901, PLR0912
     """Completeness: every changed public object is reported (same kind) on one of its public paths or at its definition.
     Soundness: every reported breakage corresponds to a difference of that kind between the two public surfaces."""
-    diffs = expected_differences(old_surface, new_surface)
+    expectations, old_surface = case["expectations"], case["old_surface"]
+    demanded, allowed = reference_diffs(case)
+    late: set[str] = set()
+    if case.get("loaded") is not None:
+        for which in ("old_tops", "new_tops"):
+            if sorted(info[which]) != sorted(case["loaded"]):
+                return (f"the collection of the {which[:3]} version holds the packages {info[which]} after the session, the loading rules "
+                        f"(explicit loads + private sibling of pk when an exported alias leads there) give {case['loaded']}", info, case["loaded"])
+        tops = info["old_tops"]
+        late = set(tops[tops.index("pk") + 1:])
+        if "_pk" in late:
+            rec.count("private_sibling_entered_collection_after_package")
+        if any(d["kind"] == "?" for d in old_surface.values()):
+            rec.count("pairs_with_reexport_into_unloaded_package")
+        if case.get("wild_paths"):
+            rec.count("pairs_with_wildcard_import_from_loaded_sibling")
     by_obj: dict[tuple[str, str], list[dict]] = {}
-    for d in diffs:
+    for d in demanded:
         by_obj.setdefault((d["canonical"], d["kind"]), []).append(d)
     for (canonical, kind), ds in by_obj.items():
         paths = {d["path"] for d in ds} | {canonical}
@@ -503,12 +828,25 @@ def judge(rec, case: dict, expectations: list[dict], old_surface: dict, new_surf
         rec.count("incompatible_public_edits_reported" if hit else "incompatible_public_edits_missed")
         if behind:
             rec.count("edits_behind_reexport_or_inheritance")
+        ctop = top_of(canonical)
+        if hit and ctop != "pk" and old_surface[ds[0]["path"]]["kind"] != "?":
+            # the object lives in a sibling top-level package; inherited = reached through a pk class that is not its own class
+            inherited = False
+            for d in ds:
+                holder = old_surface.get(d["path"].rsplit(".", 1)[0])
+                if holder and holder["kind"] == "class" and holder["canonical"] != canonical.rsplit(".", 1)[0]:
+                    inherited = True
+            rec.count("sibling_package_inherited_member_edits_reported" if inherited else "sibling_package_reexport_edits_reported")
+            if inherited and ctop in late:
+                rec.count("inherited_from_late_loaded_package_edits_reported")
+            if any(d["path"] == w or d["path"].startswith(w + ".") for d in ds for w in case.get("wild_paths") or ()):
+                rec.count("edits_behind_wildcard_import_from_sibling_reported")
         if not hit:
             return (f"public object {canonical} ({kind}) changed on public path(s) {sorted(d['path'] for d in ds)} but no such breakage is reported",
                     rows, ds)
     for r in rows:
         ok = any(d["kind"] == r["kind"] and (r["path"] == d["path"] or r["canonical"] == d["canonical"] or r["path"] == d["canonical"])
-                 for d in diffs)
+                 for d in allowed)
         if not ok:
             fid = None
             if r["kind"] == "Attribute value was changed" and r["path"].endswith(".__all__"):
@@ -518,15 +856,16 @@ def judge(rec, case: dict, expectations: list[dict], old_surface: dict, new_surf
                 if "__all__ = []" in src:
                     fid = "C11-empty-all-is-itself-public"
             return (f"breakage '{r['kind']}' on {r['path']} does not correspond to any difference between the public surfaces "
-                    "(private / imported-not-exported object, or nothing changed there)", rows, diffs, fid)
+                    "(private / imported-not-exported object, or nothing changed there)", rows, allowed, fid)
     for e in expectations:
-        if e["expect"] and not any(d["canonical"].startswith(e["where"]) or e["where"].startswith(d["canonical"]) for d in diffs):
+        if e["expect"] and not any(d["canonical"].startswith(e["where"]) or e["where"].startswith(d["canonical"]) for d in allowed):
             rec.count("incompatible_private_edits_silent")
     return None
 
 
 def cli_exit(old_files: dict, new_files: dict) -> tuple[int, int, str]:
     """Run `python -m griffe check` in a scratch git repository; returns (exit code, stderr lines, stderr tail)."""
+    import shutil
     import tempfile
 
     root = tempfile.mkdtemp(prefix="vfc11git-")
@@ -535,14 +874,14 @@ def cli_exit(old_files: dict, new_files: dict) -> tuple[int, int, str]:
     os.makedirs(root + "/tmp")
     repo = root + "/repo"
     os.makedirs(repo)
+    tops = sorted({rel.split("/", 1)[0] for rel in list(old_files) + list(new_files)})
 
     def git(*a):  # noqa: ANN002, ANN202
         return subprocess.run(["git", *a], cwd=repo, env=env, capture_output=True, text=True, check=True)
 
     def write(files):  # noqa: ANN001, ANN202
-        import shutil
-
-        shutil.rmtree(repo + "/pk", ignore_errors=True)
+        for t in tops:  # the public package and its sibling top-level packages live side by side in the repository
+            shutil.rmtree(os.path.join(repo, t), ignore_errors=True)
         for rel, content in files.items():
             p = os.path.join(repo, rel)
             os.makedirs(os.path.dirname(p), exist_ok=True)
@@ -561,48 +900,76 @@ def cli_exit(old_files: dict, new_files: dict) -> tuple[int, int, str]:
         lines = [ln for ln in proc.stderr.splitlines() if ln.strip()]
         return proc.returncode, len(lines), proc.stderr[-400:]
     finally:
-        import shutil
-
         shutil.rmtree(root, ignore_errors=True)
 
 
-def run_case(rec, old_model: dict, script: list[str], rng: random.Random, with_cli: bool) -> None:  # noqa: ANN001
+def run_case(rec, old_model: dict, script: list[str], rng: random.Random, with_cli: bool, focus: bool = False) -> None:  # noqa: ANN001
     new_model = copy.deepcopy(old_model)
-    paths_old = public_paths(old_model)
+    paths_old = public_paths(old_model)  # what Python itself sees, every sibling package present
     expectations = []
     for kind in script:
-        e = apply_edit(rng, old_model, new_model, kind, paths_old)
+        e = apply_edit(rng, old_model, new_model, kind, paths_old, focus=focus)
         if e:
             expectations.append(e)
     fix_class_order(new_model)
     fix_class_order(old_model)
+    if any(m.get("wild") and not m["all"] for mdl in (old_model, new_model) for m in mdl["mods"].values()):
+        rec.skip("wildcard import in a module whose __all__ became empty (publicness of wildcard-imported names not settled)")
+        return
+    session = copy.deepcopy(CLI_SESSION) if with_cli else gen_session(rng, old_model)
+    loaded = loaded_after(old_model, session["ops"])
+    if loaded_after(new_model, session["ops"]) != loaded:
+        # the edit removed the last exported name that leads into the private sibling package: the two versions are not
+        # loaded alike and what is inherited from there is visible in one of them only - outside the judged domain
+        rec.skip("edit changes which packages the session loads")
+        return
     old_files, new_files = render(old_model), render(new_model)
-    judge_files(rec, old_files, new_files, expectations, surface(old_model), surface(new_model), with_cli)
+    case = {"old": old_files, "new": new_files, "expectations": expectations, "session": session, "loaded": loaded,
+            "old_surface": surface(old_model, loaded), "new_surface": surface(new_model, loaded),
+            "old_full": surface(old_model), "new_full": surface(new_model), "wild_paths": wildcard_only_paths(old_model, set(loaded))}
+    judge_case(rec, case, with_cli)
 
 
-def judge_files(rec, old_files, new_files, expectations, old_surface, new_surface, with_cli) -> None:  # noqa: ANN001
-    case = {"old": old_files, "new": new_files, "expectations": expectations, "old_surface": old_surface, "new_surface": new_surface}
+def judge_case(rec, case: dict, with_cli: bool) -> None:  # noqa: ANN001, C901
+    old_files, new_files, expectations = case["old"], case["new"], case["expectations"]
     incompat = [e for e in expectations if e["expect"]]
-    diffs = expected_differences(old_surface, new_surface)
-    nontrivial = any(d["path"] != d["canonical"] for d in diffs)
+    demanded, allowed = reference_diffs(case)
+    nontrivial = any(d["path"] != d["canonical"] for d in demanded)
+    session = case.get("session")
     try:
         with case_watchdog(180):
             for src in list(old_files.values()) + list(new_files.values()):
                 compile(src, "<c11>", "exec")
-            rows = diff_in_process(old_files, new_files)
+            rows, info = diff_in_process(old_files, new_files, session)
             rec.count("pairs_diffed")
             rec.count("breakages_explained", len(rows))
-            res = judge(rec, case, expectations, old_surface, new_surface, rows)
+            if session:
+                rec.count("sessions_loaded_like_cli" if session["mode"] == "cli" else "sessions_with_several_steps")
+                rec.count("tree_reads_between_loading_steps", info["touched"])
+                rec.count("pairs_with_sibling_packages", int(len(info["old_tops"]) > 1))
+            res = judge(rec, case, rows, info)
             if not res and not incompat:
                 rec.count("identical_pairs_silent" if not expectations else "compatible_scripts_silent")
-            if not res and with_cli:
+            if with_cli:
                 code, nlines, tail = cli_exit(old_files, new_files)
                 rec.count("cli_exit_codes_compared")
-                want = 1 if rows else 0
-                if code != want:
-                    res = (f"CLI exit code {code} but in-process diff reports {len(rows)} breakage(s)", {"exit": code, "stderr": tail}, want)
-                elif rows and nlines < len(rows):
-                    res = ("CLI printed fewer lines than breakages", {"lines": nlines, "stderr": tail}, len(rows))
+                if len(info["old_tops"]) > 1:
+                    rec.count("cli_cases_with_sibling_package")
+                # against the reference model: non-zero when a difference is demanded, zero when none is even allowed
+                wants = {1 if demanded else 0, 1 if allowed else 0}
+                cres = None
+                if code not in wants:
+                    cres = (f"CLI exit code {code} but the public surfaces differ in {len(demanded)} demanded / {len(allowed)} allowed place(s)",
+                            {"exit": code, "stderr": tail}, sorted(wants))
+                elif not res and code != (1 if rows else 0):
+                    cres = (f"CLI exit code {code} but in-process diff reports {len(rows)} breakage(s)", {"exit": code, "stderr": tail}, 1 if rows else 0)
+                elif not res and rows and nlines < len(rows):
+                    cres = ("CLI printed fewer lines than breakages", {"lines": nlines, "stderr": tail}, len(rows))
+                if cres:
+                    rec.count("cli_exit_code_discrepancies")
+                    if demanded and code == 0 and any(top_of(d["canonical"]) != "pk" for d in demanded):
+                        rec.count("cli_silent_on_sibling_package_edit")
+                res = res or cres
     except Exception as exc:  # noqa: BLE001
         rec.fail_exc(case, f"{type(exc).__name__} during API comparison", exc, nontrivial=nontrivial)
         return
@@ -616,17 +983,21 @@ def judge_files(rec, old_files, new_files, expectations, old_surface, new_surfac
 
 def shards(tier: str, seed: int) -> list[dict]:
     n = 110 if tier == "quick" else 900
-    return [{"count": n, "cli": 1 if tier == "quick" else 6} for _ in range(16)]
+    return [{"count": n, "cli": 3 if tier == "quick" else 9} for _ in range(16)]
 
 
 def run_shard(spec: dict, rec) -> None:  # noqa: ANN001
     rng = random.Random(spec["seed"])
     for i in range(spec["count"]):
-        model = gen_model(rng)
+        with_cli = i < spec["cli"]
+        # two of three CLI cases have the private sibling package linked by an exported re-export (what makes `griffe check`
+        # pull it in), and edit an object pk only has from there
+        force = with_cli and i % 3 != 2
+        model = gen_model(rng, siblings=True if force else None)
         r = rng.random()
-        if r < 0.12:
+        if r < 0.12 and not force:
             script: list[str] = []
-        elif r < 0.40:
+        elif r < 0.40 and not force:
             script = [rng.choice(COMPAT) for _ in range(rng.randint(1, 4))]
         else:
             script = [rng.choice(INCOMPAT + COMPAT) for _ in range(rng.randint(1, 3))] + [rng.choice(INCOMPAT)]
@@ -634,11 +1005,22 @@ def run_shard(spec: dict, rec) -> None:  # noqa: ANN001
             # one incompatible edit per script keeps expectations independent of each other
             inc = [k for k in script if k in INCOMPAT][:1]
             script = [k for k in script if k in COMPAT] + inc
-        run_case(rec, model, script, rng, with_cli=i < spec["cli"])
+        run_case(rec, model, script, rng, with_cli=with_cli, focus=force or rng.random() < 0.25)
+
+
+def legacy_case(inp: dict) -> dict:
+    """Replay files / pinned witnesses written before sessions existed: single package, load + resolve."""
+    case = dict(inp)
+    case.setdefault("session", None)
+    case.setdefault("loaded", None)
+    case.setdefault("old_full", None)
+    case.setdefault("new_full", None)
+    case.setdefault("expectations", [])
+    return case
 
 
 def run_replay(inp: dict, rec) -> None:  # noqa: ANN001
-    judge_files(rec, inp["old"], inp["new"], inp["expectations"], inp["old_surface"], inp["new_surface"], with_cli=False)
+    judge_case(rec, legacy_case(inp), with_cli=False)
 
 
 def run_pinned(findings: list[dict], rec) -> dict:  # noqa: ANN001
@@ -647,7 +1029,6 @@ def run_pinned(findings: list[dict], rec) -> dict:  # noqa: ANN001
     out = {}
     for f in findings:
         sub = Recorder(PROP, {})
-        w = f["witness"]
-        judge_files(sub, w["old"], w["new"], w.get("expectations", []), w["old_surface"], w["new_surface"], with_cli=False)
+        judge_case(sub, legacy_case(f["witness"]), with_cli=False)
         out[f["id"]] = pinned_result(sub, f)
     return out
